@@ -17,7 +17,8 @@ EXTENDS Integers, Sequences, FiniteSets, TLC, SequencesExt
 
 CONSTANTS N,          \* nodes 0..N-1, root 0
           Loops,      \* allow self-loops
-          Mutant      \* "none" | "sibling_shortcut"
+          MaxEdges,   \* only digraphs with at most this many edges (N * N = no restriction)
+          Mutant      \* "none" | "sibling_shortcut" | "last_changed"
 
 VARIABLES E,          \* the digraph (chosen in Init)
           po,         \* post-order built so far (sequence of nodes)
@@ -32,7 +33,7 @@ Nodes == 0 .. (N - 1)
 Succ(v) == {e[2] : e \in {f \in E : f[1] = v}}
 Pred(v) == {e[1] : e \in {f \in E : f[2] = v}}
 
-Init == /\ E \in SUBSET {e \in Nodes \X Nodes : Loops \/ e[1] # e[2]}
+Init == /\ E \in {X \in SUBSET {e \in Nodes \X Nodes : Loops \/ e[1] # e[2]} : Cardinality(X) <= MaxEdges}
         /\ po = <<>> /\ stack = <<0>> /\ seen = {0} /\ dom = <<>> /\ idx = 0 /\ changed = FALSE /\ pc = "dfs" /\ panic = FALSE
 
 \* DfsPostOrder: descend into ANY undiscovered successor of the top of the stack; emit the top when it has none
@@ -75,7 +76,7 @@ Step ==
               LET r == Fold(dom, order[1], Tail(order)) IN
               IF ~r[2] THEN panic' = TRUE /\ pc' = "done" /\ UNCHANGED <<dom, idx, changed>>
               ELSE /\ dom' = [dom EXCEPT ![idx] = r[1]]
-                   /\ changed' = (changed \/ r[1] # dom[idx])
+                   /\ changed' = (IF Mutant = "last_changed" THEN r[1] # dom[idx] ELSE changed \/ r[1] # dom[idx])
                    /\ idx' = idx - 1 /\ UNCHANGED <<pc, panic>>
     /\ UNCHANGED <<E, po, stack, seen>>
 EndPass ==
